@@ -65,6 +65,7 @@ type spec struct {
 	WrapInt bool         // int / int64 `+ - *` wrap at 64 bits (Go.wrap64) instead of assuming no overflow
 	Frag    *fragSpec    // translate a run of statements of the function as a function of its own
 	Name    string       // Lean name (default: the Go name, Recv_Func for methods)
+	Uses    []useSpec    // functions of other generated modules it calls
 }
 
 // a fragment: the consecutive statements of one block from the one whose text starts with First to
@@ -108,6 +109,10 @@ var specs = []spec{
 	{File: "utils/compare.go", Func: "SortSearchResults", Module: "Compare", Ext: true, Structs: sortStructs,
 		Prims: []string{"sortFunc", "CompareAny=func(a, b any) int"}},
 	pagingSpec,
+	{File: "shard/shard.go", Func: "changePointCount", Module: "PointCount", Ext: true,
+		Consts: []constSpec{{File: "shard/shard.go", Name: "POINTCOUNTKEY", As: "POINTCOUNTKEY"}},
+		Uses: []useSpec{{Go: "conversion.BytesToUint64", Lean: "Gen.Conversion.BytesToUint64", Sig: "func([]byte) uint64", Module: "Conversion"},
+			{Go: "conversion.Uint64ToBytes", Lean: "Gen.Conversion.Uint64ToBytes", Sig: "func(uint64) []byte", Module: "Conversion"}}},
 }
 
 // the paging at the end of Shard.SearchPoints
@@ -1378,6 +1383,13 @@ func main() {
 		var b strings.Builder
 		b.WriteString("-- GENERATED by tools/go2lean from the working tree of the repository. DO NOT EDIT.\n")
 		b.WriteString("import SemaModel.Base.GoRt\n")
+		seen := map[string]bool{}
+		for _, im := range moduleImports[m] {
+			if !seen[im] {
+				b.WriteString("import " + im + "\n")
+				seen[im] = true
+			}
+		}
 		if extMods[m] {
 			b.WriteString("set_option linter.unusedVariables false\n")
 		}
